@@ -129,6 +129,20 @@ def gen_cases(tier, seed):
 
 
 def run_case(case, ctx):
+    try:
+        return _run_case(case, ctx)
+    except Exception as exc:
+        import traceback
+        tb = traceback.format_exc(limit=8)
+        if "/saml2_tophat/" in tb and "apply_binding" in tb:
+            # the encoder itself failed on a message/RelayState it is supposed to carry
+            return {"outcome": "packaging-raised:" + type(exc).__name__, "nontrivial": True, "counters": {"independent_reads": 0},
+                    "violations": [{"key": "C14/packaging-raised:" + case["binding"], "what": "%s binding, message %s, RelayState %r: apply_binding raised %s: %s" % (
+                        case["binding"], case.get("msg"), case.get("relay"), type(exc).__name__, str(exc)[:200])}]}
+        raise
+
+
+def _run_case(case, ctx):
     from saml2_tophat.entity import Entity
     ent = ctx.idp if (case["msg"] is not None and case["msg"] >= 4) else ctx.sp
     binding = case["binding"]
